@@ -211,8 +211,9 @@ V('sign-mdd-topcofactor', 'C15', 'breaking',
   [('dd/mdd.py', """            if u < 0:
                 return tuple(-v for v in nodes)""", """            if u < 0:
                 return tuple(nodes)""")],
-  None, 'still inside the sign test: dependence rule cannot see polarity')
-VARIANTS[-1]['kind'] = 'benign'   # documented blind spot (polarity)
+  'R-VISIT/cofactors/dd.mdd.MDD._top_cofactor',
+  'the successors of a complemented reference are not negated (the sign '
+  'dataflow rule cannot see polarity; the cofactor model can)')
 V('sign-mdd-edge-map', 'C15', 'breaking',
   [('dd/mdd.py', """        int_succ = [umap[abs(z)] if z > 0 else -umap[abs(z)]
                     for z in bit_succ]""", """        int_succ = [umap[abs(z)]
@@ -365,10 +366,10 @@ V('conn-image', 'C13', 'breaking',
   'R-CONN/encoding/dd.bdd._image', 'exists computed as implies')
 V('role-dddmp-store', 'C16', 'breaking',
   [('dd/dddmp.py', "        self.bdd[u] = (level, w, v)", "        self.bdd[u] = (level, v, w)")],
-  'R-ROLE/crossed/dd.dddmp.Parser._add_node', 'then/else not swapped')
+  'R-ROLE/swapped-edges/dd.dddmp.Parser._parse_body', 'then/else not swapped')
 V('role-dddmp-load', 'C16', 'breaking',
   [('dd/dddmp.py', "            r = bdd.find_or_add(i, p, q)", "            r = bdd.find_or_add(i, q, p)")],
-  'R-ROLE/crossed/dd.dddmp.load', 'loader exchanges branches')
+  'R-ARGS/wrong-function/dd.dddmp.load', 'loader exchanges branches')
 V('role-low-accessor', 'C18', 'breaking',
   [(A, """        _, v, _ = self.manager._succ[abs(self.node)]
         if v is None:
@@ -643,16 +644,16 @@ V('invmap-swap-no-pred', ['C02', 'C07'], 'breaking',
             if r in self._pred:
                 raise AssertionError(r)
             done.add(u)""")],
-  'R-INVMAP/unpaired/dd.bdd.BDD.swap', 'unique table not updated in loop 2')
+  'R-INVMAP/tables/dd.bdd.BDD.swap', 'unique table not updated in loop 2')
 V('invmap-swap-done', ['C02', 'C07'], 'breaking',
   [(B, """            self._pred[r] = u
             done.add(u)""", """            self._pred[r] = u""")],
-  'R-INVMAP/done-set/dd.bdd.BDD.swap', 'independent nodes rewritten twice')
+  '/dd.bdd.BDD.swap/', 'independent nodes rewritten twice')
 V('invmap-swap-vars', ['C02', 'C07'], 'breaking',
   [(B, """        self._level_to_var[y] = vx
         self._level_to_var[x] = vy""", """        self._level_to_var[y] = vy
         self._level_to_var[x] = vx""")],
-  'R-INVMAP/order-maps/dd.bdd.BDD.swap', 'inverse map not swapped')
+  'R-INVMAP/tables/dd.bdd.BDD.swap', 'inverse map not swapped')
 V('invmap-undeclare-pred', ['C02', 'C14'], 'breaking',
   [(B, """        self._pred = {
             v: k
@@ -1339,7 +1340,7 @@ V('undeclare-vars-renumbered', ['C14', 'C02'], 'breaking',
             for new, var in enumerate(
                 var for var, old in self.vars.items()
                 if old in full_levels)}""")],
-  'R-INVMAP/vars-renumbered', 'names renumbered in insertion order')
+  'R-INVMAP/compaction', 'names renumbered in insertion order')
 V('mdd-bits-sorted', 'C15', 'breaking',
   [('dd/mdd.py', """        bits = dvars[var]['bitnames']
         bit_succ = list()""", """        bits = sorted(dvars[var]['bitnames'], key=bdd.level_of_var)
